@@ -21,7 +21,7 @@ from common import hx, unhx, zs, zp
 
 KINDS = {"FLAC"}
 LIMIT = 300_000
-MODES = {"default": "default", "none": "default", "zero": "c0", "one": "c1", "odd": "c" + zs(777),
+MODES = {"default": "default", "none": "none", "zero": "c0", "one": "c1", "odd": "c" + zs(777),
          "large": "c" + zs(50000), "keep": "keep"}
 RERENDERED = (0, 3, 5, 6)
 
